@@ -24,6 +24,20 @@ def cases(tier, rng):
         seq = fqgen.random_schedule(rng, n, rng.randint(5, 50), removes=(rng.random() < 0.4))
         out.append("f%d fq / %s / D" % (k, " / ".join(seq)))
         k += 1
+    # fairness across an idle period: after a busy phase and a park, one stream queues a backlog and another a single
+    # item: that item waits for at most (number of streams - 1) deliveries of others
+    for n in (2, 3):
+        for busy in (6, 14):
+            for backlog in (12, 40):
+                labs = ["I%d" % s_ for s_ in range(1, n + 1)]
+                for i in range(busy):
+                    s_ = 1 + (i % n) if i % 4 else 1
+                    labs += ["A%d.%d" % (s_, 1000 + i), "W%d" % s_, "P"]
+                labs += ["P", "P"]                       # everything drained: the receiver parks on an empty heap
+                labs += ["A2.%d" % (2000 + i) for i in range(backlog)] + ["W2"] + ["A1.7777", "W1"]
+                labs += ["P"] * (backlog + 2)
+                out.append("h%d fq / %s / D" % (k, " / ".join(labs)))
+                k += 1
     # a stream that yields (wakes the waker it is polled with and returns Pending, as tokio's cooperative budgeting does):
     # poll_next must return (Pending, receiver woken) instead of spinning, and the next call delivers
     for n in (1, 2, 3):
@@ -140,6 +154,18 @@ def judge(line, obs, orc):
         return "poll_next does not return (spins) when a stream yields"
     if any("spin" in t for t in toks):
         return "poll_next spins"
+    if line.split()[0].startswith("h"):
+        n = len(inserted)
+        # deliveries after the last burst was queued: position of 1.7777
+        deliv = [t.split("@")[0] for t in toks if t.startswith("R") and "." in t.split("@")[0]]
+        tail = deliv[deliv.index(next(d for d in deliv if d.startswith("R2.2000"))) if any(d.startswith("R2.2000") for d in deliv) else 0:]
+        # count only what came after the busy phase
+        after = [d for d in deliv if d.startswith("R2.2") or d == "R1.7777"]
+        if "R1.7777" not in after:
+            return "the single item of stream 1 was never delivered"
+        pos = after.index("R1.7777")
+        if pos > n - 1:
+            return "stream 1 waited %d deliveries of others with %d streams (after an idle period the rotation must not depend on the others' backlog)" % (pos, n)
     left = toks[-1]
     if left != "left=-":
         for kv in left[5:].split(","):
